@@ -960,6 +960,13 @@ func prepareDeltaBuild(options Options, repository *git.Repository) (repos map[f
 			return nil, nil, nil, fmt.Errorf("getting current git tree for branch %q: %w", b, err)
 		}
 
+		// Delta builds do not apply ignore files (see below): a path that an
+		// unchanged ignore file excludes would be indexed by the delta but not
+		// by a full build. Let the caller fall back to a normal build.
+		if _, err := tree.File(ignore.IgnoreFile); err == nil {
+			return nil, nil, nil, fmt.Errorf("%q file is not yet supported in delta builds", ignore.IgnoreFile)
+		}
+
 		branchToCurrentTree[b] = tree
 	}
 
